@@ -27,6 +27,8 @@ fn probe() -> Fingerprint {
     // which worker ran which leaf
     let ids: Vec<usize> = (0..64usize).into_par_iter().map(|_| rayon::current_thread_index().unwrap_or(999)).collect();
     f.seq("leaf_workers", ids);
+    f.text("envvar", &std::env::var("RAYON_NUM_THREADS").unwrap_or_default());
+    f.one("available_parallelism", std::thread::available_parallelism().map(|n| n.get()).unwrap_or(0));
     // combinators whose RESULT depends on shared state (preemption points in the vendored rayon)
     let order: Vec<u32> = (0..96u32).par_bridge().collect();
     f.seq("par_bridge_order", order);
@@ -112,10 +114,20 @@ fn run_pinned() -> i32 {
             fail(&format!("entropy seam not live: `{n}` did not change with the entropy seed"));
         }
     }
-    for n in ["parsum", "clock", "leaf_workers", "par_bridge_order", "find_any"] {
+    for n in ["parsum", "clock", "leaf_workers", "par_bridge_order", "find_any", "envvar", "available_parallelism"] {
         if field(&base, n) != field(&ee, n) {
             fail(&format!("`{n}` changed with the entropy seed alone"));
         }
+    }
+    // environment-variable and CPU-count dimensions live
+    let ev = run_sim(&Env { envvars_seed: 99, ..Env::reference() }, probe).results.unwrap().remove(0);
+    if field(&base, "envvar") == field(&ev, "envvar") || field(&base, "hashorder") != field(&ev, "hashorder") {
+        fail("environment-variable dimension not live (or leaking into other seams)");
+    }
+    let ecpu = run_sim(&Env { cpus: 3, ..Env::reference() }, probe).results.unwrap().remove(0);
+    let ncpu = unsafe { libc::sysconf(libc::_SC_NPROCESSORS_ONLN) };
+    if ncpu >= 3 && field(&base, "available_parallelism") == field(&ecpu, "available_parallelism") {
+        fail("CPU-count dimension not live: available_parallelism() did not follow the affinity mask");
     }
     // clock seam live
     let ec = run_sim(&Env { clock_seed: 1, ..Env::reference() }, probe).results.unwrap().remove(0);
@@ -151,6 +163,7 @@ fn run_pinned() -> i32 {
             clock_seed: seed * 3,
             context: [Context::External, Context::InWorker, Context::Siblings, Context::Warm][(seed % 4) as usize],
             cpus: 1 + (seed % 3) as usize,
+            envvars_seed: seed % 2 * (seed + 1),
             replay: None,
         };
         let a = run_sim(&e, probe);
